@@ -72,6 +72,69 @@ int main(void)
             }
             flatcc_destroy_context(ctx);
             free(src);
+        } else if (n >= 3 && !strcmp(tok[0], "bfbs")) {
+            /* bfbs <optbits> <hex schema>: both in-memory generation paths, buffer sizes, length prefix, sorted lookup.
+               optbits as for compile, plus 16 = bgen_length_prefix.
+               -> "fail diag=n" | "ok size=<n> prefix=<0|1:value> tobuf_exact=<rc> tobuf_larger=<rc>:<same|DIFF> tobuf_small=<rc> verify=<..> root=<name|-> find=<ok|FAIL:what> sorted=<ok|FAIL:what>" */
+            unsigned ob = (unsigned)strtoul(tok[1], 0, 10); size_t len = h_hexlen(tok[2]); char *src = malloc(len + 1);
+            flatcc_options_t opts; flatcc_context_t ctx; int ret; uint8_t *bfbs; size_t bsize = 0;
+            h_unhex(tok[2], (uint8_t *)src); src[len] = 0;
+            flatcc_init_options(&opts);
+            if (ob & 2) opts.strict_enum_init = !opts.strict_enum_init;
+            if (ob & 8) opts.bgen_qualify_names = !opts.bgen_qualify_names;
+            if (ob & 16) opts.bgen_length_prefix = 1;
+            opts.bgen_bfbs = 1;
+            ndiag = 0;
+            ctx = flatcc_create_context(&opts, "h_schema", on_error, 0);
+            ret = ctx ? flatcc_parse_buffer(ctx, src, len) : -1;
+            if (ret) { printf("fail diag=%d\n", ndiag); }
+            else if (!(bfbs = flatcc_generate_binary_schema(ctx, &bsize))) printf("ok nobfbs\n");
+            else {
+                size_t off = (ob & 16) ? 4 : 0, i, j; uint32_t pv = 0; int r1, r2, r3, v; const char *bad = 0, *badsort = 0; static char what[200];
+                uint8_t *b1 = malloc(bsize + 64), *b2 = malloc(bsize + 64), *b3 = malloc(bsize ? bsize : 1);
+                reflection_Schema_table_t S; reflection_Object_vec_t objs; reflection_Enum_vec_t ens;
+                memset(b2, 0xa5, bsize + 64);
+                r1 = flatcc_generate_binary_schema_to_buffer(ctx, b1, bsize);
+                r2 = flatcc_generate_binary_schema_to_buffer(ctx, b2, bsize + 64);
+                r3 = bsize > 1 ? flatcc_generate_binary_schema_to_buffer(ctx, b3, bsize - 1) : -1;
+                if (off) memcpy(&pv, bfbs, 4);
+                printf("ok size=%zu prefix=%d:%u tobuf_exact=%d:%s tobuf_larger=%d:%s tobuf_small=%d", bsize, (int)(off != 0), (unsigned)pv,
+                       r1, r1 == (int)bsize && !memcmp(b1, bfbs, bsize) ? "same" : "DIFF", r2, r2 == (int)bsize && !memcmp(b2, bfbs, bsize) ? "same" : "DIFF", r3);
+                v = off ? flatcc_verify_table_as_root_with_size(bfbs, bsize, reflection_Schema_file_identifier, reflection_Schema_verify_table) : reflection_Schema_verify_as_root(bfbs, bsize);
+                printf(" verify=%s", v ? flatcc_verify_error_string(v) : "ok");
+                if (!v) {
+                    S = reflection_Schema_as_root(bfbs + off); objs = reflection_Schema_objects(S); ens = reflection_Schema_enums(S);
+                    printf(" root=%s", reflection_Schema_root_table(S) ? reflection_Object_name(reflection_Schema_root_table(S)) : "-");
+                    for (i = 0; i < reflection_Object_vec_len(objs) && !bad; ++i) {
+                        reflection_Object_table_t o = reflection_Object_vec_at(objs, i); reflection_Field_vec_t fs = reflection_Object_fields(o);
+                        size_t k = reflection_Object_vec_find(objs, reflection_Object_name(o));
+                        if (k == flatbuffers_not_found || strcmp(reflection_Object_name(reflection_Object_vec_at(objs, k)), reflection_Object_name(o))) { snprintf(what, sizeof what, "object:%s", reflection_Object_name(o)); bad = what; }
+                        if (i && strcmp(reflection_Object_name(reflection_Object_vec_at(objs, i - 1)), reflection_Object_name(o)) >= 0) { snprintf(what, sizeof what, "objects-at-%zu", i); badsort = what; }
+                        for (j = 0; j < reflection_Field_vec_len(fs) && !bad; ++j) {
+                            reflection_Field_table_t f = reflection_Field_vec_at(fs, j);
+                            size_t q = reflection_Field_vec_find(fs, reflection_Field_name(f));
+                            if (q == flatbuffers_not_found || strcmp(reflection_Field_name(reflection_Field_vec_at(fs, q)), reflection_Field_name(f))) { snprintf(what, sizeof what, "field:%s.%s", reflection_Object_name(o), reflection_Field_name(f)); bad = what; }
+                            if (j && strcmp(reflection_Field_name(reflection_Field_vec_at(fs, j - 1)), reflection_Field_name(f)) >= 0) { snprintf(what, sizeof what, "fields-of-%s-at-%zu", reflection_Object_name(o), j); badsort = what; }
+                        }
+                    }
+                    for (i = 0; i < reflection_Enum_vec_len(ens) && !bad; ++i) {
+                        reflection_Enum_table_t e = reflection_Enum_vec_at(ens, i); reflection_EnumVal_vec_t vs = reflection_Enum_values(e);
+                        size_t k = reflection_Enum_vec_find(ens, reflection_Enum_name(e));
+                        if (k == flatbuffers_not_found || strcmp(reflection_Enum_name(reflection_Enum_vec_at(ens, k)), reflection_Enum_name(e))) { snprintf(what, sizeof what, "enum:%s", reflection_Enum_name(e)); bad = what; }
+                        for (j = 0; j < reflection_EnumVal_vec_len(vs) && !bad; ++j) {
+                            int64_t val = reflection_EnumVal_value(reflection_EnumVal_vec_at(vs, j));
+                            size_t q = reflection_EnumVal_vec_find(vs, val);
+                            if (q == flatbuffers_not_found || reflection_EnumVal_value(reflection_EnumVal_vec_at(vs, q)) != val) { snprintf(what, sizeof what, "enumval:%s=%lld", reflection_Enum_name(e), (long long)val); bad = what; }
+                        }
+                    }
+                    printf(" find=%s%s sorted=%s%s", bad ? "FAIL:" : "ok", bad ? bad : "", badsort ? "FAIL:" : "ok", badsort ? badsort : "");
+                    dump(bfbs + off);
+                }
+                printf("\n");
+                free(b1); free(b2); free(b3); free(bfbs);
+            }
+            if (ctx) flatcc_destroy_context(ctx);
+            free(src);
         } else if (n >= 4 && (!strcmp(tok[0], "lit") || !strcmp(tok[0], "enum"))) {
             /* lit <optbits> <type> <hex token>   : table T { x:<type> = <token>; }  -> ok <default as uint64> | reject
                enum <optbits> <type> <v,v,_,...>  : enum E:<type> { M0 = v, M1, ... }  -> ok v0,v1,... (as uint64) | reject */
